@@ -15,6 +15,7 @@ import (
 	"github.com/tobgu/qframe"
 	qcsv "github.com/tobgu/qframe/config/csv"
 	"github.com/tobgu/qframe/config/groupby"
+	"github.com/tobgu/qframe/types"
 
 	"qverif/fw"
 	"qverif/hooks"
@@ -855,7 +856,25 @@ func runC09(c *fw.Case) {
 		var a, b qframe.QFrame
 		var op string
 		pv, _ := fw.Guard(func() {
-			switch rng.Intn(5) {
+			switch rng.Intn(8) {
+			case 5:
+				op = "WithRowNums(rownum)"
+				a, b = qf.WithRowNums("rownum"), rb.WithRowNums("rownum")
+			case 6:
+				// a generator: the k-th row of the frame receives the k-th generated value
+				gen := func() func() int { k := 100; return func() int { k += 3; return k } }
+				dst := []string{"generated", sh.Cols[rng.Intn(len(sh.Cols))].Name}[rng.Intn(2)]
+				op = fmt.Sprintf("Apply(counting func() int -> %q)", dst)
+				a, b = qf.Apply(qframe.Instruction{Fn: gen(), DstCol: dst}), rb.Apply(qframe.Instruction{Fn: gen(), DstCol: dst})
+			case 7:
+				// a row-wise function of one column, and a copy of a column
+				src := sh.Cols[rng.Intn(len(sh.Cols))]
+				op = fmt.Sprintf("Apply(Copy %q -> cpy; ToUpper/identity on it)", src.Name)
+				ins := []qframe.Instruction{{Fn: types.ColumnName(src.Name), DstCol: "cpy"}}
+				if src.Kind == model.KString || src.Kind == model.KEnum {
+					ins = append(ins, qframe.Instruction{Fn: "ToUpper", DstCol: "up", SrcCol1: "cpy"})
+				}
+				a, b = qf.Apply(ins...), rb.Apply(ins...)
 			case 0:
 				cl := model.GenClause(rng, sh, 1+rng.Intn(3))
 				if cl == nil {
